@@ -28,3 +28,41 @@ func H04_unsuback()    { vrtTotal(NewUnsubackMessage(), "N04", 10) }
 func H04_pingreq()     { vrtTotal(NewPingreqMessage(), "N04", 10) }
 func H04_pingresp()    { vrtTotal(NewPingrespMessage(), "N04", 10) }
 func H04_disconnect()  { vrtTotal(NewDisconnectMessage(), "N04", 10) }
+
+// C04 second half: every well-formed packet (reference decoder accepts the
+// exact frame) is accepted by the library with the same fields and size.
+func vrtAccept(typ byte, bound string, def int) {
+	buf := vrtBytes("in", vrtBound(bound, def))
+	vrtAssume(len(buf) >= 2)
+	vrtAssume(buf[0]>>4 == typ)
+	p, n, ok := specDecode(buf)
+	if !ok {
+		return
+	}
+	vrtAssume(n == len(buf))
+	vrtReach("C04.wellformed")
+	m := vrtNewOf(typ)
+	n2, err := m.Decode(buf)
+	vrtAssert("C04.accepts_wellformed", err == nil)
+	if err != nil {
+		return
+	}
+	vrtAssert("C04.accept_size", n2 == n)
+	vrtAssert("C04.accept_fields", vrtFieldsEq(m, &p))
+	vrtObserve("accept", n2)
+}
+
+func H04a_connect()     { vrtAccept(1, "N04aconnect", 18) }
+func H04a_connack()     { vrtAccept(2, "N04a", 10) }
+func H04a_publish()     { vrtAccept(3, "N04a", 10) }
+func H04a_puback()      { vrtAccept(4, "N04a", 10) }
+func H04a_pubrec()      { vrtAccept(5, "N04a", 10) }
+func H04a_pubrel()      { vrtAccept(6, "N04a", 10) }
+func H04a_pubcomp()     { vrtAccept(7, "N04a", 10) }
+func H04a_subscribe()   { vrtAccept(8, "N04a", 10) }
+func H04a_suback()      { vrtAccept(9, "N04asuback", 7) }
+func H04a_unsubscribe() { vrtAccept(10, "N04a", 10) }
+func H04a_unsuback()    { vrtAccept(11, "N04a", 10) }
+func H04a_pingreq()     { vrtAccept(12, "N04a", 10) }
+func H04a_pingresp()    { vrtAccept(13, "N04a", 10) }
+func H04a_disconnect()  { vrtAccept(14, "N04a", 10) }
